@@ -880,4 +880,13 @@ STRING_TO_COST_FUNCTION = {
         CostFunction_GaussApproximation,
         {"errors_to_use": "pointwise"},
     ),
+    # the identifiers written to files are the names of the cost function methods
+    "gaussian_approximation_covariance": (
+        CostFunction_GaussApproximation,
+        {"errors_to_use": "covariance"},
+    ),
+    "gaussian_approximation_pointwise_errors": (
+        CostFunction_GaussApproximation,
+        {"errors_to_use": "pointwise"},
+    ),
 }
